@@ -396,7 +396,10 @@ fn check_state(blob: &MerkleBlob, model: &Model, after: &str) -> Result<(), Fail
         Ok(Ok(())) => {}
     }
     // lookup by leaf hash is part of the map's content
-    if let Some((k, (v, h))) = model.kv.iter().next() {
+    // every key for small trees, an evenly spaced sample of at most 16 otherwise
+    let n = model.kv.len();
+    let stride = (n / 16).max(1);
+    for (k, (v, h)) in model.kv.iter().step_by(stride) {
         match guard(|| blob.get_node_by_hash(hash_of(*h))) {
             Err(p) => return Err(fail(format!("panic:get_node_by_hash:after_{after}"), p)),
             Ok(Ok((gk, gv))) if gk.0 == *k && gv.0 == *v => {}
@@ -453,7 +456,15 @@ fn check_hashes(blob: &MerkleBlob, model: &Model, c: &mut Counters) -> Result<()
                 }
             }
             c.inc("root_checks");
-            for (k, (_, h)) in &model.kv {
+            // every key for trees of up to 64 leaves; for larger ones an evenly spaced sample
+            // of about 32 keys plus the newest (deepest in chain mode). The root recomputation
+            // above already covers every node.
+            let n = model.kv.len();
+            let stride = if n > 64 { n / 32 } else { 1 };
+            let newest = model.newest.filter(|k| model.kv.contains_key(k));
+            let sample = model.kv.iter().step_by(stride).map(|(k, v)| (*k, *v)).chain(newest.map(|k| (k, model.kv[&k])));
+            for (k, (_, h)) in sample {
+                let (k, h) = (&k, &h);
                 let p = guard(|| blob.get_proof_of_inclusion(KeyId(*k)))
                     .map_err(|p| fail("panic:get_proof_of_inclusion".into(), p))?
                     .map_err(|e| fail(format!("proof_missing:{}", variant_name(&e)), format!("key {k}: {e}")))?;
@@ -476,7 +487,11 @@ type ProofSnapshot = BTreeMap<i64, Result<ProofOfInclusion, String>>;
 
 fn snapshot_proofs(blob: &MerkleBlob, model: &Model) -> Result<ProofSnapshot, String> {
     let mut m = BTreeMap::new();
-    for k in model.kv.keys() {
+    // all keys up to 64 leaves, an evenly spaced sample of about 32 plus the newest beyond
+    let n = model.kv.len();
+    let stride = if n > 64 { n / 32 } else { 1 };
+    let newest = model.newest.filter(|k| model.kv.contains_key(k));
+    for k in model.kv.keys().step_by(stride).chain(newest.iter()) {
         let r = guard(|| blob.get_proof_of_inclusion(KeyId(*k)))?;
         m.insert(*k, r.map_err(|e| variant_name(&e)));
     }
@@ -911,7 +926,7 @@ impl Engine for C18 {
     }
     fn default_runs(&self, tier: Tier) -> u64 {
         match tier {
-            Tier::Quick => 700_000,
+            Tier::Quick => 500_000,
             Tier::Thorough => 6_000_000,
         }
     }
